@@ -292,8 +292,61 @@ func genStarLimit(r *gen.Rand, ds *Dataset) *Query {
 	return q
 }
 
+// tagKeyExists: does any series of the data set carry tag key k?
+func tagKeyExists(ds *Dataset, k int) bool {
+	for i := range ds.Series {
+		if k < len(ds.Series[i].Tags) && ds.Series[i].Tags[k] != 0 {
+			return true
+		}
+	}
+	return false
+}
+
+// existingTagKeys: a tag test names a tag key of the measurement. An identifier that no series carries as a tag is not a
+// tag of the measurement at all: the engine (like InfluxDB) then reads it as a field reference without a value and every
+// comparison is false, whereas the reference semantics would read "absent tag = empty string". The documentation fixes
+// neither; such atoms are moved to an existing key, or dropped when the data set has no tag at all.
+func existingTagKeys(p *Pred, ds *Dataset) *Pred {
+	if p == nil {
+		return p
+	}
+	switch p.Op {
+	case "and", "or":
+		p.A, p.B = existingTagKeys(p.A, ds), existingTagKeys(p.B, ds)
+		at, bt := p.A.Op == "true", p.B.Op == "true"
+		switch {
+		case p.Op == "and" && at:
+			return p.B
+		case p.Op == "and" && bt:
+			return p.A
+		case p.Op == "or" && (at || bt):
+			return &Pred{Op: "true"}
+		}
+	case "tageq", "tagne":
+		if !tagKeyExists(ds, p.K) {
+			for k := range tagNames {
+				if tagKeyExists(ds, k) {
+					v := p.V
+					if int(v) >= len(tagVals[k]) {
+						v = 0
+					}
+					return &Pred{Op: p.Op, K: k, V: v}
+				}
+			}
+			return &Pred{Op: "true"}
+		}
+	}
+	return p
+}
+
 // genQuery draws a query of the supported core. Desc is left false: every query is run in both orders.
 func genQuery(r *gen.Rand, ds *Dataset) *Query {
+	q := genQuery0(r, ds)
+	q.Pred = existingTagKeys(q.Pred, ds)
+	return q
+}
+
+func genQuery0(r *gen.Rand, ds *Dataset) *Query {
 	lo, hi := dsRange(ds)
 	if (ds.Wide && r.Chance(1, 2)) || r.Chance(1, 12) {
 		return genStarLimit(r, ds)
